@@ -60,7 +60,7 @@ REGISTRY = {
                          'np.argmin(bool array, axis=0) = first False; principal complex square root as an uninterpreted function with w*w = z, Re w >= 0; np.log uninterpreted',
                          'a vanishing Fresnel denominator (non-finite numpy result, no exception) ends the path: outside this contract']),
     'C12': dict(module='contracts.C12', level='proof',
-                native=native_sweep('c12_pulses.py', 'pulse count from the geometry alone, gap-free numbering in object order, pulses on segment joints, grounded ends, end points perturbed by 0.4x / 2x the matching tolerance, closed loops, stars (random wire graphs, free space and ground)', 300, 8000),
+                native=native_sweep('c12_pulses.py', 'pulse count from the geometry alone, gap-free numbering in object order, pulses on segment joints, grounded ends, end points perturbed by 0.4x / 2x the matching tolerance, closed loops, stars (random wire graphs, free space and ground); six fixed arc models whose ends lie on the ground plane up to rounding (r sin pi)', 300, 8000),
                 undecided=[],
                 trusted=['coordinate triples as dictionary keys: abstract key = function of the three coordinates',
                          'the regrouping of the per-end count into per-junction (k - 1) terms is a finite-sum identity (documented lemma)',
@@ -72,7 +72,7 @@ REGISTRY = {
                          'taper1/taper2: the search loops over k (for-else) that choose the number of tapered segments under a maximum, and the upper limit itself (taper1 asserts it at run time), are NOT under contract (bounded stand-in only); under contract: both emitting loops (exactly n chained pieces), the effective minimum, the preambles (frame: minl starts as l/npieces, is clamped to the minimum, is only raised), the growth clause of taper1 and of taper2 (both ends: doubling / equal / halving phases, every neighbour ratio within [1, 2.1], every piece at least the effective minimum; unbounded n, inductive invariants) and the mirror image of taper1 for the other end',
                          'taper growth units: one-dimensional end points with p2 > p1 (the statements are dimension-generic; in 3-D every increment is a multiple of the wire vector); pow2(i) = 1 << i as an uninterpreted function with pow2(0) = 1, pow2(i+1) = 2 pow2(i); the two facts about the preamble (minl starts as l/(2^n - 1) and is only raised; eps = minl/10) are checked on its text, not by executing it']),
     'C20': dict(module='contracts.C20', level='proof',
-                native=native_sweep('c20_failsafe.py', 'about 400 argument lists: every option with every field zero / negative / huge / tiny / nan / inf / text / empty, wrong arity, unknown tags, contradictory options, degenerate and duplicate geometry; outcome classified as report / one-line diagnostic / usage error', 100000, 100000),
+                native=native_sweep('c20_failsafe.py', 'about 1050 argument lists, the same on every run (no sampling): every option with every field zero / negative / huge / tiny / nan / inf / text / empty, wrong arity, unknown tags, contradictory options, degenerate and duplicate geometry; outcome classified as report / one-line diagnostic / usage error', 100000, 100000),
                 undecided=['finiteness of the numbers produced by the numeric stage (singular or ill-conditioned systems, non-finite inputs): recorded findings C20-nonfinite, C20-singular',
                            'not under contract: the argparse declarations themselves (types, defaults), --frequency/--frequency-steps/--frequency-increment validation beyond the range test, --option values, the sweep loop at the end of main (native fuzz only)'],
                 trusted=['argparse: action=append collects values in command-line order; type= applies the constructor and turns ValueError into the usage error',
@@ -83,7 +83,7 @@ REGISTRY = {
                 assumptions=['ASSUMED CONTRACT ON AN EXTERNAL PROGRAM: the MININEC-3 prompt grammar (order and content of answers, versions 9/12/13) as written in contracts/C18.py and native/c18_basic.py'],
                 trusted=['% conversions carry their value']),
     'C19': dict(module='contracts.C19', level='other',
-                native=native_sweep('c19_format.py', 'run-time contract of format_float over a boundary lattice (43 decades x 2 signs x use_e x rounding-boundary mantissas) and read-back of complete reports of electrically tiny and ordinary antennas', 20, 3000),
+                native=native_sweep('c19_format.py', 'run-time contract of format_float over a boundary lattice (43 decades x 2 signs x use_e x rounding-boundary mantissas) and read-back of complete reports of electrically tiny and ordinary antennas, one of them with two sources of different voltage (every source block against that source\'s own values)', 20, 3000),
                 undecided=['float64 effects inside format_float (the quotient log|f|/log 10 at exact powers of ten, binary rounding of the % conversion): native lattice only'],
                 trusted=['% conversions render within their class: %d of an int exactly, %g with six significant digits',
                          "rendering axiom of '% .Nf' % x and '% e' % x: the digits are an integer M with |M - |x|*10^N| <= 1/2 (resp. a 7-digit mantissa with the decade's exponent); sign character '-' iff x < 0",
@@ -122,7 +122,7 @@ REGISTRY = {
                          'measure_time decorator returns the wrapped method\'s result unchanged',
                          'call graph of E4 over-approximates calls by method name']),
     'C08': dict(module='contracts.C08', level='proof',
-                native=native_sweep('c08_loads.py', 'feed impedance rises by Z_L (interior, junction, end-1 and end-2 grounded feeds), loads add, zero load, RLC/trap/Laplace = circuit impedance over 12 decades, conductivity/resistivity, closed-form distributed load per pulse, eps_r = 1, sweep coherence', 30, 1500),
+                native=native_sweep('c08_loads.py', 'feed impedance rises by Z_L (interior, junction, end-1 and end-2 grounded feeds), loads add, zero load, one load object on several pulses (a grounded one first) equals separate equal loads, RLC/trap/Laplace = circuit impedance over 12 decades, conductivity/resistivity, closed-form distributed load per pulse, eps_r = 1, sweep coherence', 30, 1500),
                 undecided=['a skin-effect load of unbounded conductivity changes nothing (a limit statement)'],
                 trusted=['Lean 4.33 + Mathlib kernel (lemmas/LoadSeries.lean); quick tier trusts the recorded hash of the last successful compilation',
                          'scipy.special.jv, np.sqrt (complex), np.log as uninterpreted functions with the listed axioms',
